@@ -44,6 +44,7 @@ func init() {
 			{"checkBroadcastHash", "MultiHandler.checkBroadcastHash guards", guardsIn("pkg/protocol/handler.go", "MultiHandler.checkBroadcastHash")},
 			{"checkBroadcastHashRanges", "MultiHandler.checkBroadcastHash: which queues are compared", rangesIn("pkg/protocol/handler.go", "MultiHandler.checkBroadcastHash")},
 			{"finalizeEcho", "MultiHandler.finalize: the echo check precedes the round's Finalize", callsIn("pkg/protocol/handler.go", "MultiHandler.finalize", `receivedAll|checkBroadcastHash|Finalize|abort`)},
+			{"outCapacity", "capacity of the handlers' out channels", append(callsIn("pkg/protocol/handler.go", "NewMultiHandler", `^make$`), callsIn("pkg/protocol/twoparty.go", "NewTwoPartyHandler", `^make$`)...)},
 			{"isFor", "Message.IsFor", append(guardsIn("pkg/protocol/message.go", "Message.IsFor"), returnsIn("pkg/protocol/message.go", "Message.IsFor")...)},
 		}
 	})
